@@ -139,6 +139,8 @@ _gen_inc = {}
 
 def generated_inc_schema(k):
     if k not in _gen_inc:
+        while len(_gen_inc) >= 48:
+            _gen_inc.pop(next(iter(_gen_inc)))
         from ..gen.schemas import with_incremental
         from .c02 import generated_schema
         gs = generated_schema(k)
